@@ -509,6 +509,14 @@ def run_history(ops_or_gen, length=None, rng=None, style=None, malformed=False, 
         if freeze_at is not None and i == freeze_at:
             H.freeze()
         op = _norm(gen_op(rng, H, nodes, eids, malformed)) if ops_or_gen is None else ops_or_gen[i]
+        if ops_or_gen is None and PRESENT is not None:
+            # sorted() over ids of mixed kinds is where a numpy integer legitimately behaves unlike an int
+            # (numpy compares it elementwise with a tuple instead of raising TypeError): the presentation batch,
+            # which is about the id counter, leaves the duplicate merge out
+            if op[0] == "merge_duplicate_edges":
+                op = ("clear_edges",)
+            elif op[0] == "cleanup":
+                op = (op[0], op[1], op[2], True) + tuple(op[4:])
         extra, exc, nwarn = apply_op(H, op)
         ob = observe(H)
         rec["ops"].append(op); rec["extras"].append(extra); rec["obs"].append(ob)
